@@ -67,7 +67,7 @@ func init() {
 			},
 		},
 		Required: []string{"inherited-visible", "own-shadows-exported", "unuse-with-own-defs", "unexport-while-used",
-			"unbind-exported-while-used", "private-blocked", "two-used-export-same", "export-before-define", "indirect-use", "static-qualified-introspection"},
+			"unbind-exported-while-used", "private-blocked", "two-used-export-same", "export-before-define", "indirect-use", "static-qualified-introspection", "static-defpackage-options"},
 		Bound: func(tier string) string {
 			return fmt.Sprintf("configurations V (2 packages x 1 variable, 14 operations) and W (2 packages x 1 function, 12 operations): BFS to the FIXPOINT "+
 				"(every reachable implementation state, every depth); S (2 packages x 1 variable x 1 function, 22 operations): BFS with state dedup to depth %d; "+
